@@ -101,10 +101,70 @@ def run(ck, fx, cg, tier):
     _atomic_print(ck, fx, cg)
     # ------------------------------------------------------------ program output is written through
     _output_through(ck, fx, cg)
+    # ------------------------------------------------------------ faults are not compiled away
+    _no_elision(ck, fx)
     # ------------------------------------------------------------ fault detection (VM templates)
     from . import c05_vm
     c05_vm.fault_rules(ck, fx, cg, "R10.faults")
     c05_vm.fault_rows(ck, fx, cg, "R10.faults")
+
+
+PURE_OPS = {"Literal", "Drop", "GetLocal"}   # cannot fault at run time: leaving them out changes nothing observable
+
+
+def _no_elision(ck, fx):
+    """A fault is detected by the instruction that performs the undefined operation (get global on an unknown name,
+    call function / call method slot, get / set field, array, print …). "Execution stops there" therefore needs that
+    instruction to exist even when the construct's value is not used: `keep_result` may decide whether the value is
+    dropped, never whether the operation is compiled. For every AST kind the sequence of faulting instructions and
+    recursive compiles of the keep=false templates must be the ones of the keep=true templates."""
+    from .c02 import templates, frame_label, all_items
+    from ..template import stream, is_ok_result
+    T = templates(fx)
+    if not ck.anchor("R10.elide", "compile_into templates", T):
+        return
+
+    def sig(items):
+        out = []
+        for it in items:
+            if it.kind == "emit":
+                name = it.op[2] if it.op[0] == "ctor" else "?"
+                if name not in PURE_OPS:
+                    out.append(name)
+            elif it.kind == "rec":
+                out.append("compile(%s)" % _short_term(it.child))
+            elif it.kind == "foreach":
+                out.append(("each", tuple(sorted({tuple(sig(v["items"])) for v in it.variants}, key=repr))))
+        return tuple(out)
+
+    n = 0
+    variants = sorted({v for v, k in T})
+    for v in variants:
+        sigs = {}
+        bad = None
+        for keep in (True, False):
+            ent = T.get((v, keep))
+            if ent is None or ent[2] or not [p for p in ent[1] if is_ok_result(p)]:
+                bad = "no template for keep=%s (unprovable)" % keep
+                break
+            sigs[keep] = {sig(stream(p["eff"])) for p in ent[1] if is_ok_result(p)}
+        n += 1
+        if bad:
+            ck.ob("R10.elide", v, False, "", bad)
+            continue
+        missing = sigs[True] - sigs[False]
+        extra = sigs[False] - sigs[True]
+        ok = not missing and not extra
+        ck.ob("R10.elide", v, ok, "",
+              "keep=false compiles the same faulting instructions and children as keep=true (%d shape(s))" % len(sigs[True]) if ok else
+              "with the value discarded the arm compiles %s where the value-keeping form compiles %s: an undefined operation in a discarded position is not executed, so the program runs past the fault" % (
+                  [list(x) for x in sorted(extra, key=repr)] or "nothing else", [list(x) for x in sorted(missing, key=repr)]))
+    ck.floor("R10.elide", "AST kinds compared", n, 18)
+
+
+def _short_term(t):
+    from ..symdbg import fmt_term
+    return fmt_term(t)[:40]
 
 
 def _recursion(ck, fx, cg, reach):
